@@ -33,7 +33,7 @@ def bounds(tier):
     k = "K<=2 over the full alphabet and K=3 over the core alphabet (eventgroup 5, counter 0, endpoint 1, two subscribers)"
     if tier == "thorough":
         k = "K<=2 over the full alphabet, K=3 over the medium alphabet (two eventgroups, one counter/endpoint, two subscribers) and K=4 over the core alphabet without reboot evidence from the second subscriber"
-    return {"H06": k + "; alphabet: Subscribe/StopSubscribe(eventgroup in 2, counter in {0,1}, endpoint in 2, subscriber in 2, with/without reboot evidence), reboot-only message, stop/start of the service, stop/start of the announcer, connection loss; Subscribe TTL symbolic 1..0xFFFFFF; listener accept/reject symbolic per call; gaps 0..2^40 ticks; delivery iteration/batching symbolic"}
+    return {"H06": k + "; plus K=4 histories (infinite TTLs) 'two distinct subscriptions of one subscriber, then two events from {StopSubscribe of either, reboot-only message, Subscribe with/without reboot evidence, service stop, connection loss}'; alphabet: Subscribe/StopSubscribe(eventgroup in 2, counter in {0,1}, endpoint in 2, subscriber in 2, with/without reboot evidence), reboot-only message, stop/start of the service, stop/start of the announcer, connection loss; Subscribe TTL symbolic 1..0xFFFFFF; listener accept/reject symbolic per call; gaps 0..2^40 ticks; delivery iteration/batching symbolic"}
 
 
 def _alphabet(groups, counters, eps, sources="PQ"):
@@ -91,6 +91,17 @@ def cases(tier, seed):
     tiny = [e for e in core if not (e[0] in ("sub", "stopsub") and e[4] == "Q" and e[5]) and e != ["rebootmsg", "Q"]]
     plan = [(full, 1), (full, 2), (core, 3)] if tier == "quick" else [(full, 1), (full, 2), (medium, 3), (tiny, 4)]
     out, seen = [], set()
+    # two distinct subscriptions of one subscriber, then two further events (K = 4): state
+    # that survives earlier steps (indexes, caches, timers) meets StopSubscribe / reboot / stop
+    tails = [["stopsub", 0, 0, 0, "P", 0], ["stopsub", 1, 0, 0, "P", 0], ["rebootmsg", "P"], ["sub", 0, 0, 0, "P", 1], ["sub", 0, 0, 0, "P", 0], ["svc_stop"], ["lost"]]
+    second = [["sub", 1, 0, 0, "P", 0], ["sub", 0, 1, 0, "P", 0]] + ([["sub", 0, 0, 1, "P", 0], ["sub", 0, 0, 0, "Q", 0]] if tier == "thorough" else [])
+    for y in second:
+        for e3 in tails:
+            for e4 in tails:
+                combo = (["sub", 0, 0, 0, "P", 0], y, e3, e4)
+                if _valid(combo) and (tier == "thorough" or e3[0] == "stopsub" or e4[0] in ("rebootmsg", "sub")):
+                    seen.add(repr(combo))
+                    out.append({"h": "H06", "evs": [list(e) for e in combo], "inf": True, "_w": 4})
     for alpha, k in plan:
         for combo in itertools.product(alpha, repeat=k):
             if not _valid(combo):
@@ -162,7 +173,12 @@ def h06(E, M, case):
             entries, options = [], []
             if kind != "rebootmsg":
                 g, c, (ip, port) = GROUPS[ev[1]], ev[2], EPS[ev[3]]
-                ttl = E.int("ttl%d" % i, 1, 0xFFFFFF) if kind == "sub" else 0
+                if kind != "sub":
+                    ttl = 0
+                elif case.get("inf"):
+                    ttl = TTL_FOREVER  # K=4 family: no expiry timers, only ordering matters
+                else:
+                    ttl = E.int("ttl%d" % i, 1, 0xFFFFFF)
                 entries.append(wire.sd_entry_bytes(wire.T_SUBSCRIBE, 0, 0, 1, 0, SVC[0], SVC[1], SVC[2], ttl, wire.eventgroup_word(c, g)))
                 options.append(wire.sd_option_bytes(wire.OPT_V4_ENDPOINT, wire.ip_option_data(ip, wire.PROTO_UDP, port)))
                 key = (addr, g, c, ((bytes(ip), port),))
